@@ -69,8 +69,9 @@ class Statistics:
         return Statistics(
             sum=self.sum + other.sum,
             sum2=self.sum2 + other.sum2,
-            min=min(self.min, other.min),
-            max=max(self.max, other.max),
+            # numpy's minimum / maximum: an invalid (NaN) operand makes the result invalid as well
+            min=float(np.minimum(self.min, other.min)),
+            max=float(np.maximum(self.max, other.max)),
             weight=self.weight + other.weight,
             median=np.nan,
         )
